@@ -7,6 +7,9 @@ PROP = {
         {"name": "c_ring", "quick": 1000000, "thorough": 15000000, "maxlen": 640},
         {"name": "cxx_ring", "quick": 1000000, "thorough": 15000000, "maxlen": 640},
         {"name": "cyclic", "quick": 500000, "thorough": 8000000, "maxlen": 400},
+        {"name": "c_ring_large", "quick": 30000, "thorough": 400000, "maxlen": 3000},
+        {"name": "cxx_ring_large", "quick": 30000, "thorough": 400000, "maxlen": 3000},
+        {"name": "cyclic_large", "quick": 20000, "thorough": 300000, "maxlen": 3000},
     ],
     "fuzz": [{"name": "c_ring", "secs": 45, "maxlen": 640}, {"name": "cxx_ring", "secs": 45, "maxlen": 640}],
 }
